@@ -45,6 +45,11 @@ void finish_op(World& W, int wi)
     s.call_done = true;
     s.accepted = x.res_accepted;
     s.threw = x.res_threw;
+    // a statement that fits the queue's real capacity (its maximum for unbounded queues) is accepted, blocks or is dropped --
+    // an error is only documented for a statement that can never fit
+    if (s.threw && s.encoded <= kCap)
+      fail(W, "log call of " + std::to_string(s.encoded) + " B threw a QuillError although the queue's capacity is " + std::to_string(kCap) +
+                " B (configured " + std::to_string(kInitCap) + " B): a fitting statement must be accepted, wait or be dropped");
     s.ts = x.w->first_realtime_in_op;
     s.enq_time = sim::core().vclock;
     if (s.kind == SKind::MacroStatic || s.kind == SKind::MacroDynamic)
@@ -1075,10 +1080,17 @@ void op_shrink_chain_then_exit(World& W, int point)
   size_t cap0 = worker_queue_capacity(W, wi);
   if (cap0 < 4 * 64) return;
   W.r->label("shrink_chain");
-  op_shrink(W, wi, cap0 / 2);
-  if (W.r->failed) return;
-  op_shrink(W, wi, cap0 / 4);
-  if (W.r->failed) return;
+  {
+    unsigned const links = 2 + W.c->pick(3); // 2..4 re-allocations in a row
+    size_t cap = cap0;
+    for (unsigned k = 0; k < links && cap / 2 >= 64; ++k)
+    {
+      cap /= 2;
+      op_shrink(W, wi, cap);
+      if (W.r->failed) return;
+      if (k >= 2) W.r->label("three_or_more_shrinks_in_a_row");
+    }
+  }
   unsigned n = 1 + W.c->pick(2);
   for (unsigned k = 0; k < n; ++k) op_log(W, wi, true, point, -1, static_cast<int>(SKind::Normal), true);
   if (W.c->pick(3) != 0) op_exit_thread(W, wi);
@@ -1106,9 +1118,16 @@ void op_shrink_chain_then_pair(World& W)
   W.r->label("shrink_chain_then_two_threads_log");
   if (W.c->pick(2) == 0)
   {
-    op_shrink(W, a, cap0 / 2);
-    if (W.r->failed) return;
-    op_shrink(W, a, cap0 / 4);
+    // 2..4 re-allocations in a row with nothing logged in between: a chain of never-used buffers
+    unsigned const links = 2 + W.c->pick(3);
+    size_t cap = cap0;
+    for (unsigned k = 0; k < links && cap / 2 >= 64; ++k)
+    {
+      cap /= 2;
+      op_shrink(W, a, cap);
+      if (W.r->failed) return;
+      if (k >= 2) W.r->label("three_or_more_shrinks_in_a_row");
+    }
   }
   else op_shrink(W, a, 64); // the next statement does not fit 64 bytes: the queue grows at once, the 64-byte buffer stays empty
   if (W.r->failed) return;
